@@ -102,6 +102,14 @@ func (c *prefixedConn) TakeRelayPrefix() []byte {
 	return remaining
 }
 
+// CloseWrite forwards a half-close to the wrapped connection (see bufioConn.CloseWrite).
+func (c *prefixedConn) CloseWrite() error {
+	if wc, ok := c.Conn.(WriteCloser); ok {
+		return wc.CloseWrite()
+	}
+	return nil
+}
+
 func (c *prefixedConn) Read(p []byte) (int, error) {
 	if c.off < len(c.prefix) {
 		n := copy(p, c.prefix[c.off:])
